@@ -104,7 +104,7 @@ def run(tier):
 
     # extend / merge / group over 2..3 records
     for i in range(nshape):
-        k = ctx.rnd.choice([2, 2, 3])
+        k = ctx.rnd.choice([2, 2, 3]) if i % 10 else 1     # one in ten: an EMPTY list of other records
         shp = shapes(ctx.rnd, k, 3)
         mode = i % 4
         if mode == 1 and k == 3:
@@ -127,6 +127,13 @@ def run(tier):
                 # the descriptor-only function must agree with the record function
                 md = merge_record_descriptors(tuple(r._desc for r in recs), replace, rename)
                 c["name_ok"] &= md.get_field_tuples() == res._desc.get_field_tuples()
+                # the result is a record of its own: the caller goes on to change it, and the originals must not follow
+                donor = W.build(9, shp[0])
+                for n, _ in shp[0]:
+                    try:
+                        setattr(res, n, getattr(donor, n))
+                    except Exception:
+                        pass
             except Exception as e:
                 c["raised"], c["exc"] = True, type(e).__name__ + ":" + str(e)[:80]
             c["originals_unchanged"] = before == [json.dumps(observe.obs_record(r), sort_keys=True) for r in recs]
